@@ -187,6 +187,7 @@ package netpoll
 //@ ghost global hOutPending bool
 // the wake-up descriptor delivered the close message (first byte of the eventfd counter non-zero) in this batch
 //@ ghost global hSawClose bool
+//@ ghost global hDrained bool
 
 // the callbacks of a registered FDOperator (fd_operator.go): assumed contracts for operators supplied by users of the Poll API;
 // netpoll's own operators (connection.inputs/inputAck/outputs/outputAck/onHup, server.OnRead) satisfy them
@@ -298,12 +299,15 @@ package netpoll
 //@   ensures closed ==> !p.live && !fdopen[p.fd] && !fdopen[old(p.wop.FD)] && closecnt[p.fd] == old(closecnt[p.fd]) + 1 && closecnt[old(p.wop.FD)] == old(closecnt[p.wop.FD]) + 1
 //@   ensures !closed ==> p.live && fdopen[p.fd] && fdopen[p.wop.FD]
 //@   ensures hSawClose ==> closed
-//@   modifies world, p.hups, p.trigger, p.live, FDOperator.opheld, FDOperator.state, FDOperator.detached, fdopen, closecnt, mem:*, hAcked, hLastRead, hPendingAck, hReadall, hLastSent, hOutPending, hSawClose
-//@   loop 1 invariant -1 <= rangeindex && !hSawClose && forall o *FDOperator :: !o.opheld
+//@   modifies world, p.hups, p.trigger, p.live, FDOperator.opheld, FDOperator.state, FDOperator.detached, fdopen, closecnt, mem:*, hAcked, hLastRead, hPendingAck, hReadall, hLastSent, hOutPending, hSawClose, hDrained
+//@   loop 1 invariant -1 <= rangeindex && !hSawClose && !hDrained && forall o *FDOperator :: !o.opheld
 //@   loop 1 invariant !hPendingAck && !hOutPending && p.live && fdopen[p.fd] && fdopen[p.wop.FD] && p.fd != p.wop.FD && p.wop.FD == old(p.wop.FD)
 //@   loop 1 invariant closecnt[p.fd] == old(closecnt[p.fd]) && closecnt[p.wop.FD] == old(closecnt[p.wop.FD])
-//@   ghost at entry: hPendingAck = false; hOutPending = false; hSawClose = false
-//@   ghost after call syscall.Read#1: hSawClose = p.buf[0] > 0
+//@   ghost at entry: hPendingAck = false; hOutPending = false; hSawClose = false; hDrained = false
+//@   ghost after call syscall.Read#1: hSawClose = p.buf[0] > 0; hDrained = true
+//@   note pattern (Trigger wakes a blocked loop): the wake-up flag is cleared only after the wake-up descriptor was drained in this iteration; cleared first, a
+//@     Trigger landing in between sets the flag, its write is swallowed by the drain, and the flag stays set for ever (every later Trigger returns without writing)
+//@   ghost before call atomic.StoreUint32#1: assert hDrained; hDrained = false
 //@   note a registered slot (state 1, so that do() succeeds) other than the poller's own eventfd slot was registered through FDOperator.Control, which requires poll != nil,
 //@     and is reset only after unused(); the detach counter is far from wrapping when the event is fetched
 //@   ghost after call (*defaultPoll).getOperator#1: assume result == nil || (result.detached >= 0 && result.detached < 2147483000)
@@ -390,7 +394,7 @@ package netpoll
 //@   ensures forall o *FDOperator :: !o.opheld
 //@   ensures err == nil ==> !p.live && !fdopen[p.fd] && !fdopen[old(p.wop.FD)]
 //@   ensures !hFetched
-//@   modifies world, p.size, p.caps, p.events, p.barriers, barrier.bs, barrier.ivs, epollevent.events, epollevent.data, p.hups, p.trigger, p.live, FDOperator.opheld, FDOperator.state, FDOperator.detached, fdopen, closecnt, mem:*, hAcked, hLastRead, hPendingAck, hReadall, hLastSent, hOutPending, hFetched, hSawClose
+//@   modifies world, p.size, p.caps, p.events, p.barriers, barrier.bs, barrier.ivs, epollevent.events, epollevent.data, p.hups, p.trigger, p.live, FDOperator.opheld, FDOperator.state, FDOperator.detached, fdopen, closecnt, mem:*, hAcked, hLastRead, hPendingAck, hReadall, hLastSent, hOutPending, hFetched, hSawClose, hDrained
 //@   loop 1 invariant p.size == len(p.events) && p.size == len(p.barriers) && p.size >= 128 && n <= p.size && !hFetched && !p.opcache.ocl && !p.opcache.ofl
 //@   loop 1 invariant forall k int :: 0 <= k && k < len(p.barriers) ==> len(p.barriers[k].bs) == len(p.barriers[k].ivs)
 //@   loop 1 invariant forall o *FDOperator :: !o.opheld
